@@ -20,9 +20,9 @@ import (
 func init() {
 	Register(&Check{
 		Spec: core.Spec{ID: "C26", Level: "exploration",
-			Rule:        "case = one engine with BloomFalsePositiveRate p in {0.3, 0.1, 0.01, 0.001, 1e-4} ingesting rows built to carry a chosen number of distinct tokens (1 .. 50 000 quick, .. 300 000 thorough; few distinct field names with many tokens, the realistic skew), flushed as one or several blocks and in some cases merged. Every filter (field, token, field:token; block level and file level) is read back through ReadFileMetadata / ReadDataBlockBloomFilters, its distinct entry count n measured with the reference walker, and probed with N = max(2e5, 200/p) (cap 2e7) strings that were never inserted (disjoint alphabet). Oracle: observed rate <= 3p + 6*sqrt(3p(1-3p)/N) (3 = the maintainers' documented tolerance, 6 sigma = probe sampling error). evaluations = filters probed; non-trivial = filter with n >= 50; distinct = distinct (n, p, level, kind)",
+			Rule:        "case = one engine with BloomFalsePositiveRate p in {0.3, 0.1, 0.01, 0.001, 1e-4} ingesting rows built to carry a chosen number of distinct tokens (1 .. 50 000 quick, .. 300 000 thorough, plus volume cases of 600 000 - 1 500 000 distinct tokens in one file (one in the quick tier, one in 40 thorough), flushed at once or merged from three files; few distinct field names with many tokens, the realistic skew), flushed as one or several blocks and in some cases merged. Every filter (field, token, field:token; block level and file level) is read back through ReadFileMetadata / ReadDataBlockBloomFilters, its distinct entry count n measured with the reference walker, and probed with N = max(2e5, 200/p) (cap 2e7) strings that were never inserted (disjoint alphabet). Oracle: observed rate <= 3p + 6*sqrt(3p(1-3p)/N) (3 = the maintainers' documented tolerance, 6 sigma = probe sampling error). evaluations = filters probed; non-trivial = filter with n >= 50; distinct = distinct (n, p, level, kind)",
 			Assumptions: []string{"tolerance 3x the configured rate as pinned by TestFalsePositiveRateWithinBudget", "probe strings start with a byte (0x01) no generator emits"},
-			Floors:      map[string]int64{"filters_probed": 60, "filters_n_ge_50": 20, "probes": 5000000}},
+			Floors:      map[string]int64{"filters_probed": 60, "filters_n_ge_50": 20, "probes": 5000000, "volume_cases": 1}},
 		Cases: func(t string) int { return nQueries(t, 24, 320) },
 		Run:   runC26,
 	})
@@ -63,6 +63,17 @@ func runC26(rc *RunCtx, i int) {
 		volumes = append(volumes, 100000, 300000)
 	}
 	n := core.Pick(r, volumes)
+	// volume cases: one file holding several hundred thousand to over a million distinct entries
+	// (a long merge history or one very large flush), where a filter's size reaches megabytes
+	volumeCase := (rc.Tier != "thorough" && i == 5) || (rc.Tier == "thorough" && i%40 == 5)
+	if volumeCase {
+		p = core.Pick(r, []float64{0.001, 1e-4})
+		n = core.Pick(r, []int{600000, 900000})
+		if rc.Tier == "thorough" {
+			n = core.Pick(r, []int{600000, 900000, 1500000})
+		}
+		rc.Res.Count("volume_cases", 1)
+	}
 	caseID := fmt.Sprintf("c26_%d_%d", rc.Seed, i)
 	v := gen.NewVocab(r.Split("vocab"))
 	tok := gen.Tokenizers[0]
@@ -84,6 +95,9 @@ func runC26(rc *RunCtx, i int) {
 	spec.MinMax = nil
 	spec.Compression = "snappy"
 	blocksWanted := core.Pick(r, []int{1, 1, 2, 4})
+	if volumeCase {
+		blocksWanted = core.Pick(r, []int{1, 3})
+	}
 	spec.BufRows, spec.BufBytes, spec.RGRows, spec.RGBytes = 1<<30, 1<<30, 1<<30, 1<<30
 	spec.MaxFileSize, spec.MergeFiles = 10<<30, 10
 	if _, err := w.AddEngine(spec); err != nil {
@@ -140,7 +154,7 @@ func runC26(rc *RunCtx, i int) {
 		}
 	}
 	merged := false
-	if blocksWanted > 1 && r.Bool() {
+	if blocksWanted > 1 && (r.Bool() || volumeCase) {
 		ctx, cancel := context.WithTimeout(context.Background(), 120*time.Second)
 		_, err := w.Eng[0].Merge(ctx)
 		cancel()
